@@ -1,4 +1,4 @@
 From Coq Require Import Extraction ExtrOcamlBasic ExtrOcamlString.
-From Bloch Require Import Update.UpdateModel.
+From Bloch Require Import Update.UpdateModel Update.UpdateProofs.
 Extraction "update_model.ml" parse_semver compare_semver has_latest update_action change_label
-  parse_checksum checksum_verdict check_for_updates run_invocations.
+  parse_checksum checksum_verdict check_for_updates run_invocations stored_up.
